@@ -43,3 +43,11 @@ Theorem C12_map_twins :
       Forall2 res_equiv rs1 rs2 /\ meq eqd (abs n1 m1') (abs n2 m2').
 Proof. exact @two_instances. Qed.
 Print Assumptions C12_map_twins.
+
+(* the static tie: the call budgets the translator (harness/srcfacts/skeleton.go) derives from the two
+   texts of the cache layer on every run coincide, method by method *)
+From CacheV.proofs Require SkelTwins.
+From CacheV.gen Require SrcFacts.
+Theorem C12_cache_twins_same_call_structure : SrcFacts.budgets_map = SrcFacts.budgets_mapof.
+Proof. exact SkelTwins.twins_same_budgets. Qed.
+Print Assumptions C12_cache_twins_same_call_structure.
